@@ -81,8 +81,10 @@ class ValidationError(Exception):
         for msg in self.messages:
             yield [], msg
         for child_key in sorted(self.children, key=_child_order):
+            # loc must stay JSON-serializable whatever the keys of deserialized data
+            loc_key = child_key if isinstance(child_key, (int, str)) else str(child_key)
             for path, error in self.children[child_key]._errors():
-                yield [child_key, *path], error
+                yield [loc_key, *path], error
 
     @property
     def errors(self) -> List[LocalizedError]:
